@@ -30,7 +30,7 @@ CHECKS = {
  "C10": ("model-based stateful property testing (proptest) with generated destructor action scripts (re-entrant API use); oracle: views of C01-C06 on the nested event log + no library panic",
          "Destructors that clone/drop/adopt/unadopt/downgrade/upgrade on outsiders (incl. nested collections) during every teardown path leave all C01-C06 views intact and meet no borrow conflict.", "4 C10"),
  "C11": ("fault injection driven by property testing (proptest): one armed panic per op inside generated payload destructors, run under catch_unwind; oracle: at-most-once log, reachability bound, Weak views, allocator faults, history continues",
-         "A panic at any member position of any teardown path propagates, destroys nothing twice, frees nothing twice, leaves reachable objects intact and Weaks reporting dead.", "4 C11"),
+         "Fault enumeration over every small group shape (<= 3 objects) x every object as the panicking one x every drop order (every 8th case in the quick tier, all 296k in the thorough tier) plus generated histories: a panic at any member position of any teardown path propagates, destroys nothing twice, frees nothing twice, leaves reachable objects intact and Weaks reporting dead.", "4 C11"),
  "C12": ("model-based stateful property testing (proptest) over the handle-consuming API on linked objects; oracle: table snapshots, allocator faults, value moved/cloned exactly once, allocation accounting",
          "try_unwrap/make_mut/get_mut/raw round trips/inc/dec on objects with adoption records leave no peer record naming the given-up allocation and later drops touch no freed memory.", "4 C12"),
  "C13": ("model-based stateful property testing (proptest) over histories with elided unadopt; oracle: reachability bound + allocator faults; known finding D4 excluded by an exact model predicate evaluated before each drop",
@@ -66,7 +66,7 @@ def main():
             "evidence_file": f"/verif/evidence/{pid}.json",
             "replay_cmd_template": f"./check {pid} --replay {{path}}",
             "engine": "cxcheck",
-            "level_claimed": {"category": "exploration", "text": text, "design_ref": f"DESIGN.md section {ref} and section 10"},
+            "level_claimed": {"category": "fault_enumeration" if pid == "C11" else "exploration", "text": text, "design_ref": f"DESIGN.md section {ref} and section 10"},
             "level_note": LEVEL_NOTE,
             "technique": tech,
         })
